@@ -1022,6 +1022,24 @@ class Interp:
                             _TOPS.add(kk)
                             import sys as _sys
                             _sys.stderr.write("[TOP] in %s: %s(%s)\n" % (kk[0], ckey, ", ".join(str(a)[:60] for a in args)))
+                    if res is TOP:
+                        # an unmodelled callee that receives `&mut place`: whatever the place held is unknown afterwards (its
+                        # effect must not be dropped silently - a verdict read off that place becomes undecided)
+                        for op_, av_ in zip(t.get("args") or [], args):
+                            try:
+                                lty_ = self.body.local_ty(op_[1][0]) if isinstance(op_, list) and op_[0] in ("move", "copy") and not op_[1][1] else ""
+                            except Exception:
+                                lty_ = ""
+                            if not (lty_ or "").startswith("&mut "):
+                                continue
+                            if isinstance(av_, Ref):
+                                tgt_ = self.read_ref(env, av_)
+                                if not (isinstance(tgt_, Sym) or hasattr(tgt_, "vid")):
+                                    self.write_ref(env, av_, TOP)
+                            elif isinstance(av_, HRef):
+                                tgt_ = href_get(self, env, av_)
+                                if not isinstance(tgt_, Sym):
+                                    href_set(self, env, av_, TOP)
                     path.events.append(Event("call", bb, (ckey, f.get("gargs"), args, res, t)))
                     if res == "DIVERGE":
                         path.events.append(Event("panic", bb, f.get("key")))
@@ -1085,6 +1103,19 @@ def std_oracle(interp, env, f, args, t, bb, path):
         return v
 
     sa = f.get("self_adt")
+    if key in ("core::cell::Ref::map", "core::cell::RefMut::map", "core::cell::Ref::filter_map", "core::cell::RefMut::filter_map") and len(args) == 2:
+        # a borrow guard is the place it guards (the rules' registry models hand out places): mapping it applies the closure
+        outs = interp.call_value(args[1], [args[0]])
+        if not outs or len(outs) != 1 or outs[0][2] != "return":
+            return TOP
+        r_ = outs[0][0]
+        if key.endswith("filter_map"):
+            if isinstance(r_, Agg) and r_.name == "core::option::Option":
+                return ok(r_.fields[0]) if r_.variant == "Some" else err(args[0])
+            return TOP
+        return r_
+    if key in ("core::cell::Ref::clone",) and len(args) == 1:
+        return deref(a0) if isinstance(a0, (Ref, HRef)) and isinstance(deref(a0), (Ref, HRef)) else a0
     if f.get("self_ty") in ("usize", "u32", "u64", "u8", "u16", "i32", "i64", "isize", "u128", "i128") and args:
         xs = [deref(a) for a in args]
         if all(isinstance(x, int) and not isinstance(x, bool) for x in xs):
@@ -1253,6 +1284,14 @@ def std_oracle(interp, env, f, args, t, bb, path):
         return float(a0) if dst in ("f64", "f32") else a0
     if key == "core::clone::Clone::clone":
         return deref(a0)
+    if key == "core::clone::Clone::clone_from" and len(args) == 2 and isinstance(a0, (Ref, HRef)):
+        # the default method: `*self = source.clone()` (an overriding impl is resolved to its own body instead)
+        v_ = deref(args[1])
+        if isinstance(a0, Ref):
+            interp.write_ref(env, a0, v_)
+        else:
+            href_set(interp, env, a0, v_)
+        return Agg("tuple", None, None, [])
     if key in ("core::cmp::PartialOrd::lt", "core::cmp::PartialOrd::le", "core::cmp::PartialOrd::gt", "core::cmp::PartialOrd::ge",
                "core::cmp::PartialEq::eq", "core::cmp::PartialEq::ne"):
         a, b = deref(a0), deref(args[1])
@@ -1306,6 +1345,19 @@ def std_oracle(interp, env, f, args, t, bb, path):
             return deref(args[1]) if issome else NONE
         if name == "or" and len(args) == 2 and not issome:
             return deref(args[1])
+        if name == "flatten" and len(args) == 1:
+            if not issome:
+                return NONE
+            if isinstance(inner, Agg) and inner.name == "core::option::Option":
+                return inner
+        if name == "xor" and len(args) == 2:
+            o_ = deref(args[1])
+            if isinstance(o_, Agg) and o_.name == "core::option::Option":
+                return a0 if (issome and o_.variant == "None") else o_ if (not issome and o_.variant == "Some") else NONE
+        if name == "zip" and len(args) == 2:
+            o_ = deref(args[1])
+            if isinstance(o_, Agg) and o_.name == "core::option::Option":
+                return some(Agg("tuple", None, None, [inner, o_.fields[0]])) if (issome and o_.variant == "Some") else NONE
     if key in ("core::cmp::PartialOrd::partial_cmp",) and len(args) == 2:
         a, b = deref(a0), deref(args[1])
         if isinstance(a, (int, float)) and not isinstance(a, bool) and isinstance(b, (int, float)) and not isinstance(b, bool):
